@@ -31,6 +31,7 @@ FIELDS = [
     ("mod11", "MOD_1_1_THRESHOLD"), ("mod12", "MOD_1_2_THRESHOLD"), ("mod13", "MOD_1_3_THRESHOLD"),
     ("getStrDc", "GET_STR_DC_THRESHOLD"), ("getStrPrecompute", "GET_STR_PRECOMPUTE_THRESHOLD"),
     ("setStrDc", "SET_STR_DC_THRESHOLD"), ("setStrPrecompute", "SET_STR_PRECOMPUTE_THRESHOLD"),
+    ("divremHenselQr1", "DIVREM_HENSEL_QR_1_THRESHOLD"), ("rshDivremHenselQr1", "RSH_DIVREM_HENSEL_QR_1_THRESHOLD"),
 ]
 MINSIZES = [("karaGeneric", "MPN_KARA_MUL_N_MINSIZE", min), ("karaNative", "MPN_KARA_MUL_N_MINSIZE", max), ("toom3", "MPN_TOOM3_MUL_N_MINSIZE", max),
             ("toom4", "MPN_TOOM4_MUL_N_MINSIZE", max), ("toom8h", "MPN_TOOM8H_MUL_MINSIZE", max), ("toom3Sqr", "MPN_TOOM3_SQR_N_MINSIZE", max),
